@@ -132,6 +132,20 @@ def run(cx):
                 r'^Name::zone_of\(SIG::input\(RecordRef::data\(arg1\)\)\.signer_name,RrKey::name\(arg2\)\)$|'
                 r'^Name::zone_of\(SIG::input\(RecordRef::data\(arg1\)\)\.signer_name,arg2\.name\)$'}, expect=1, fn=f)
 
+    # (F39) the same for the verdict that needs no signature check at all: verify_rrsig_with_keys hands an RRset the Insecure
+    # state of the signer's DNSKEYs ("inherit Insecure").  "Insecure is reported only when a validated denial proves the delegation
+    # has no DS": the provably insecure zone must be the one the record lies in - the signer named by the RRSIG must enclose the
+    # owner - or any tampered record of a signed zone can be made Insecure instead of Bogus by attaching an RRSIG that names an
+    # unrelated unsigned zone which publishes DNSKEY records
+    f = cx.fn('C07.G5', N + 'verify_rrsig_with_keys')
+    if f:
+        cx.guard('C07.G5', cx.returns(f, r'Proof::Insecure'), {
+            'insecure-inherited-only-from-an-enclosing-signer':
+                r'^Name::zone_of\(SIG::input\(RecordRef::data\(arg2\)\)\.signer_name,RrKey::name\(arg3\)\)$|'
+                r'^Name::zone_of\(SIG::input\(RecordRef::data\(arg2\)\)\.signer_name,arg3\.name\)$',
+            'every-key-of-the-signer-is-insecure': r'^Option::unwrap_or\(phi\(Option::None\|Option::Some\(false\)\),false\)$|^eq:Option\(Option::Some\(true\),phi\(Option::None\|Option::Some\(false\)\)\)$'},
+            expect=1, fn=f)
+
     # ---------------------------------------------------------------- G2 verify_dnskey_rrset
     f = cx.fn('C07.G2', N + 'DnssecDnsHandle::verify_dnskey_rrset::{closure#0}')
     if f:
